@@ -13,7 +13,9 @@ import (
 	"math/big"
 	"os"
 	"path/filepath"
+	"sort"
 	"strings"
+	"sync"
 
 	"github.com/cloudflare/circl/group"
 	"github.com/cloudflare/circl/internal/verifmc"
@@ -42,6 +44,25 @@ func Groups() []Grp {
 	}
 	return gs
 }
+
+// Level is the enumeration budget of a group: the cost of one scalar
+// multiplication differs by a factor of 25 between P-256/ristretto255 and P-521
+// (group/short.go is the same code for the three NIST curves; only the curve
+// back end differs), so the quick tier runs the full quick alphabets on
+// ristretto255 and P-256, a medium subset on P-384 and a light subset on P-521.
+// 0 = light, 1 = medium, 2 = full quick alphabet, 3 = thorough alphabet.
+func (g Grp) Level(thorough bool) int {
+	q := map[string]int{"ristretto255": 2, "P-256": 2, "P-384": 1, "P-521": 0}
+	th := map[string]int{"ristretto255": 3, "P-256": 3, "P-384": 2, "P-521": 2}
+	if thorough {
+		return th[g.Name]
+	}
+	return q[g.Name]
+}
+
+// LevelNote describes Level for the evidence.
+const LevelNote = "per-group budget: quick = full quick alphabet on ristretto255 and P-256, medium subset on P-384, light subset on P-521; " +
+	"thorough = thorough alphabet on ristretto255 and P-256, full quick alphabet on P-384 and P-521"
 
 // NamedScalar is a scalar with its name in the alphabet and its integer value.
 type NamedScalar struct {
@@ -107,6 +128,45 @@ func EncS(s group.Scalar) []byte {
 
 // Hx abbreviates bytes for case descriptions.
 func Hx(b []byte) string { return hex.EncodeToString(b) }
+
+// Collector gathers violations found by parallel workers and hands them to the
+// run in sorted order, so that the example kept per key does not depend on scheduling.
+type Collector struct {
+	mu sync.Mutex
+	v  []collected
+}
+
+type collected struct {
+	key, id, what string
+	replay        interface{}
+}
+
+// Add records one violation.
+func (c *Collector) Add(key, id, what string, replay interface{}) {
+	c.mu.Lock()
+	c.v = append(c.v, collected{key, id, what, replay})
+	c.mu.Unlock()
+}
+
+// Flush reports everything collected, ordered by (key, length of case id, case id).
+func (c *Collector) Flush(r *verifmc.Run) {
+	c.mu.Lock()
+	defer c.mu.Unlock()
+	sort.Slice(c.v, func(i, j int) bool {
+		a, b := c.v[i], c.v[j]
+		if a.key != b.key {
+			return a.key < b.key
+		}
+		if len(a.id) != len(b.id) {
+			return len(a.id) < len(b.id)
+		}
+		return a.id < b.id
+	})
+	for _, x := range c.v {
+		r.Violation(x.key, x.id, x.what, x.replay)
+	}
+	c.v = nil
+}
 
 // SafePrimes loads the fixture safe primes ($VERIF_DIR/ref/testdata/safe_primes.txt).
 func SafePrimes() ([]*big.Int, error) {
